@@ -1334,3 +1334,60 @@ for _s in _pl.SPECS:
         _c = _copy.copy(_s)
         _c.prop = 'C12'
         SPECS.append(_c)
+
+
+# ----------------------------------------------------------------------------- Client._read (C12, the client endpoint)
+# "received bytes as read events in order without loss, then one disconnect": per readiness event the client endpoint does ONE recv;
+# non-empty data => exactly one read(data) event with exactly those bytes; empty data (peer closed) => close() (deferred while output
+# is queued, C11); EWOULDBLOCK / an SSL want-read => nothing at all; any other error => one error event and _close().  Added in round 5.
+def cl_read_setup(I):
+    self = ep_objs('Client')(I)
+    I.assume(z3.Not(I.fz(self, 'secure')), 'plain-text client (the TLS read path differs only in the call that receives)')
+    return {'self': self}
+
+
+def s_ep_close_handler(I, recv, args, kw):
+    I.st.ghost.setdefault('CLOSE_HANDLER_CALLS', []).append(recv)
+    return NONE
+
+
+def s_ep__close_logged(I, recv, args, kw):
+    I.st.ghost.setdefault('CLOSE_CALLS', []).append(recv)
+    return NONE
+
+
+def cl_read_post(I, outcome, ctx):
+    if no_escape(I, outcome):
+        return
+    cover(I, 'return')
+    g = I.st.ghost
+    allfired = g.get('FIRED', [])
+    reads = [e for e in allfired if isinstance(e, VCons) and e.tag == 'read']
+    errs = [e for e in allfired if isinstance(e, VCons) and e.tag == 'error']
+    ch, cl = g.get('CLOSE_HANDLER_CALLS', []), g.get('CLOSE_CALLS', [])
+    if 'RECVD' in g:
+        d = g['RECVD']
+        if reads:
+            cover(I, 'data')
+            I.oblige('one_read_event_with_exactly_the_bytes_received', z3.And(z3.BoolVal(len(reads) == 1 and len(allfired) == 1),
+                                                                             reads[0].args[0].t == d))
+            I.oblige('read_event_only_for_nonempty', z3.Length(d) > 0)
+            I.oblige('data_does_not_close', z3.BoolVal(not ch and not cl))
+        else:
+            cover(I, 'eof')
+            I.oblige('received_bytes_are_never_dropped', z3.Length(d) == 0, detail='recv returned data but no read event was fired')
+            I.oblige('eof_closes_the_connection', z3.BoolVal(len(ch) + len(cl) == 1 and not allfired))
+    elif 'RECV_ERRNO' in g:
+        import errno as E
+        cover(I, 'recv_error')
+        e = g['RECV_ERRNO']
+        I.oblige('recv_error_signalled_and_closed', z3.Implies(e != E.EWOULDBLOCK, z3.BoolVal(len(errs) == 1 and len(cl) == 1 and not reads)))
+        I.oblige('would_block_is_silent', z3.Implies(e == E.EWOULDBLOCK, z3.BoolVal(not allfired and not cl and not ch)))
+
+
+SPECS.append(FucSpec('C12', 'circuits/net/sockets.py', 'Client._read', cl_read_setup, cl_read_post, fields=EP_FIELDS,
+                     calls=dict(ep_calls('Client'), **{'self._sock.recv': s_recv, 'self.close': s_ep_close_handler,
+                                                      'self._close': s_ep__close_logged}),
+                     exc_parents={'SSLError': 'OSError'}, cover=['return', 'data', 'eof', 'recv_error'],
+                     clause='Client._read: one recv per readiness event; data => exactly one read event with exactly those bytes; empty => '
+                            'close(); EWOULDBLOCK => nothing; any other error => one error event and _close()'))
